@@ -363,7 +363,10 @@ DOCS = [
     ('2000-01-01 open Assets:A\n2000-01-02 price USD   {} EUR\n; end\n', lambda f: f.raw_directives[1].raw_amount.raw_number),
 ]
 
-DECS = ['0', '5', '-3', '12.50', '-0.75', '1000000', '2', '-1', '0.1', '7.25', '-120']
+DECS = ['0', '5', '-3', '12.50', '-0.75', '1000000', '2', '-1', '0.1', '7.25', '-120',
+        # exponents and trailing zeros: str() of these is scientific, Number._format_value must write plain notation
+        '1E+3', '-1E+3', '1E-7', '-2.5E-7', '1.2300E+2', '-1.2300E+2', '0E-5', '-0E-5', '0E+2', '12E+1', '3.40E-3',
+        '1E+12', '-7.000', '1.0E-9']
 INTS = [0, 1, 2, 3, -1, -7, 10, 12, 100, -250, 4, 5]
 
 
@@ -422,7 +425,7 @@ def coq_operand(spec, obs_before) -> str:
         return f'(OInt {coq_z(spec["v"])})'
     if spec['t'] == 'dec':
         d = Decimal(spec['v'])
-        return f'(ODec (SExt {coq_bool(d < 0)} {coq_str(str(abs(d)))}))'
+        return f'(ODec (SExt {coq_bool(d < 0)} {coq_str(format(abs(d), 'f'))}))'
     return f'(OExpr (of_obs {coq_obs(obs_before)}))'
 
 
@@ -791,7 +794,8 @@ def run(ctx: common.Ctx):
         "Python's decimal implements the arithmetic (the theorems are parametric in the carrier and use no law of it)",
         'lark tokenizes the characters of an expression into NUMBER / operators / parentheses / whitespace as the '
         "harness' regular-expression tokenizer does (compared on every generated text)",
-        'str(abs(d)) of an int/Decimal operand is a NUMBER lexeme (plain notation; 1E-7 is outside the quantifier)',
+        "format(abs(d), 'f') is how decimal spells an int/Decimal operand in plain notation (Decimal('1E+3') -> '1000', "
+        "Decimal('1E-7') -> '0.0000001'); compared with what Number.from_value wrote on every scalar operand",
         'the operand copy of fixes/number-expr-operand-copy.patch is applied (without it the check reports '
         + SIG_OPERAND + ')',
     ]
